@@ -286,12 +286,12 @@ def c14_composition(n: int, sel: int, k: int) -> bool:
 def claims(tier):
     q = tier == "quick"
     cl = []
-    nv = 4 if q else 6
-    depth = 3 if q else 4
-    nops = 3 * nv
-    for mi in range(3):
-        for first in range(nops):
-            cl.append(Claim("history[m=%d/%d,first=%s%s]" % (METERS[mi][0], METERS[mi][1], KINDS[first // nv], VALS[first % nv][1]), c14_history, params={"nv": nv, "depth": depth, "mi": mi, "first": first}, group="c14_history", pre=[lambda mi, ki, a, b_, c, d: mi == P["mi"] and ki == P["mi"] and a == P["first"] and (d == 0 or P["depth"] >= 4)], timeout=1200 if q else 3000, bounds="all add_notes sequences of length %d over {note, chord, rest} x %d values, first op fixed, meter %r, key %s" % (depth, nv, METERS[mi], KEYS[mi])))
+    for nv, depth in ([(4, 3)] if q else [(6, 3), (4, 4)]):
+        nops = 3 * nv
+        for mi in range(3):
+            for first in range(nops):
+                tag = "" if q else ",nv=%d,depth=%d" % (nv, depth)
+                cl.append(Claim("history[m=%d/%d,first=%s%s%s]" % (METERS[mi][0], METERS[mi][1], KINDS[first // nv], VALS[first % nv][1], tag), c14_history, params={"nv": nv, "depth": depth, "mi": mi, "first": first}, group="c14_history", pre=[lambda mi, ki, a, b_, c, d: mi == P["mi"] and ki == P["mi"] and a == P["first"] and (d == 0 or P["depth"] >= 4)], timeout=1200 if q else 3000, bounds="all add_notes sequences of length %d over {note, chord, rest} x %d values, first op fixed, meter %r, key %s" % (depth, nv, METERS[mi], KEYS[mi])))
     for ii in range(4):
         for fm in range(6):
             cl.append(Claim("range[%s,form=%d]" % (INSTR[ii][0], fm), c14_range, params={"ii": ii, "fm": fm}, group="c14_range", pre=[lambda ii, ni, o, form: ii == P["ii"] and 0 <= ni < len(NAMES) and 0 <= o <= 10 and form == P["fm"]], timeout=1200 if q else 3000, bounds="%s x %d names x octave symbolic 0..10 x form %s; a rest is added first and after" % (INSTR[ii][0], len(NAMES), ["Note", "NoteContainer", "list of Notes", "two-note container", "three-note list, note in the middle", "container edited in place, note in the middle"][fm])))
